@@ -240,6 +240,7 @@ class Interp:
         self.ctx = Ctx(prog, func.module, func.cls)
         self.ph_class = {}  # placeholder -> ClassInfo (Sub / Construct results)
         self.unused_calls = []
+        self.ph_field = {}  # placeholder -> Field term (decoded values)
         self.constructs = {}  # placeholder -> Construct term (objects built in this function)
         self.self_attrs = None  # attr -> expression, when interpreting a method of an object constructed by the caller
 
@@ -409,6 +410,8 @@ class Interp:
                         t.ph = ph
                         if isinstance(t, Sub) and t.cls is not None:
                             interp.ph_class[ph] = t.cls
+                        if isinstance(t, Field):
+                            interp.ph_field[ph] = t
                     out.append(t)
                     return N(t.ph) if t.ph else C(None)
                 self.generic_visit(node)
@@ -597,6 +600,7 @@ class Interp:
         if isinstance(st, ast.For):
             if st.orelse:
                 self.err(st, "for/else is not modelled")
+            st = self.rows_by_name(st)
             saved = dict(self.env)
             for n_ in ast.walk(st.target):
                 if isinstance(n_, ast.Name):
@@ -695,6 +699,35 @@ class Interp:
             return
         if self.mentions_stream(st):
             self.err(st, "unmodelled statement over the stream")
+
+    def rows_by_name(self, st: ast.For):
+        """for row in <decoded structured table>: .. row['field'] ..   ->   for f1, f2 in <table>: .. f1 ..   (fields in dtype order)"""
+        if not isinstance(st.target, ast.Name):
+            return st
+        it = self.ev(st.iter)
+        fld = self.ph_field.get(it.id) if isinstance(it, ast.Name) else None
+        if fld is None or fld.dt.kind != "V" or not fld.dt.fields:
+            return st
+        names = [f[0] if isinstance(f, (tuple, list)) else f for f in fld.dt.fields]
+        row = st.target.id
+        uses = [n for s_ in st.body for n in ast.walk(s_) if isinstance(n, ast.Name) and n.id == row]
+        subs = [n for s_ in st.body for n in ast.walk(s_) if isinstance(n, ast.Subscript) and isinstance(n.value, ast.Name) and n.value.id == row and isinstance(n.slice, ast.Constant)
+                and (n.slice.value in names or (isinstance(n.slice.value, int) and 0 <= n.slice.value < len(names)))]
+        if not subs or len(subs) != len(uses):
+            return st
+        new_names = [f"{row}__{nm}" for nm in names]
+
+        class R(ast.NodeTransformer):
+            def visit_Subscript(self, n):
+                if isinstance(n.value, ast.Name) and n.value.id == row and isinstance(n.slice, ast.Constant):
+                    k = names.index(n.slice.value) if n.slice.value in names else n.slice.value
+                    return ast.copy_location(ast.Name(id=new_names[k], ctx=ast.Load()), n)
+                self.generic_visit(n)
+                return n
+
+        body = [R().visit(copy.deepcopy(s_)) for s_ in st.body]
+        tgt = ast.Tuple(elts=[ast.Name(id=nm, ctx=ast.Store()) for nm in new_names], ctx=ast.Store())
+        return ast.copy_location(ast.For(target=tgt, iter=st.iter, body=body, orelse=[], type_comment=None), st)
 
     def construct(self, var, k: ClassInfo, call: ast.Call, st, out):
         args = [self.extract(a, out) if self.mentions_stream(a) else self.ev(a) for a in call.args]
